@@ -68,14 +68,15 @@ namespace f4 {
 
   /*!
    * a fourth order tensor of the given kind, valid in dimension N, returned
-   * as a T4 (to be rounded by fromT4).  Classes: dense components, isotropic
+   * as a T4 (to be rounded by fromT4).  Classes: dense components (1/2), isotropic
    * (lambda IxI + 2 mu Is [+ a skew part for non symmetric arguments]),
    * cubic, dyadic product A (x) B, small integers, sparse, zero.
    */
   inline T4 gen(verif::Case& c, int N, bool rowSym, bool colSym, double s = 1.) {
     T4 r;
     const int nr = dimOf(N, rowSym), nc = dimOf(N, colSym);
-    const auto cls = c.integer(0, 7, "t4_class");
+    // classes 0,1,2,8,9: fully dense (every stored component drawn, non-zero almost surely)
+    const auto cls = c.integer(0, 9, "t4_class");
     auto fromComponents = [&](const std::function<R()>& v) {
       std::vector<R> m(static_cast<std::size_t>(nr * nc));
       for (auto& x : m) x = v();
@@ -86,6 +87,8 @@ namespace f4 {
       case 0:
       case 1:
       case 2:
+      case 8:
+      case 9:
         c.tag("t4.dense");
         r = fromComponents([&] { return R(c.sreal(1., "c")); });
         break;
